@@ -464,6 +464,9 @@ def check(res, tier, seed):
                         if c["m"] == "LinkReturn" and c["ret"] != "returned":
                             vs.append("%s: Link never returns: the goroutine reporting the failure is deadlocked on the registry's lock, which the enumeration holds" % r["config"])
                     vs += [n for n in (r.get("notes") or []) if "enumeration did not finish" in n]
+                # ... and in every link-ending scenario: nothing may be left deadlocked inside panrpc
+                vs += [v + " - goroutines are deadlocked inside panrpc" for v in sys_props.mon_linkend(r)
+                       if "did not return" in v or "never returned" in v or "did not finish" in v or "DID-NOT-RETURN" in v]
             elif pid == "C03":
                 vs = sys_props.mon_linkend(r)
             else:
@@ -661,7 +664,7 @@ def check(res, tier, seed):
                 res.violation("bcast-stress", "pending-call table under the real scheduler: %s (a call registered this way can never be woken: it hangs / its entry is retained)" % sr["violates"],
                               dict(kind="bcast-stress", result=sr))
         locksets.atomicity_obligation(res, monitor_hits)
-    if pid in ("C05", "C14", "C16"):
+    if pid in ("C03", "C05", "C12", "C14", "C15", "C16"):
         # regenerated from the sources (go/ast): the critical sections obey the discipline of Regions.v
         from . import regions
         regions.obligation(res, wd, monitor_hits)
